@@ -151,6 +151,8 @@ pub fn for_each_satisfaction<FP, FF>(
             let inner = satisfier(&a2, target);
             let sat = (inner, bitcoin::absolute::LockTime::from_consensus(lt), bitcoin::Sequence(seq));
             let r = guarded(std::panic::AssertUnwindSafe(|| if mall { desc.get_satisfaction_mall(&sat) } else { desc.get_satisfaction(&sat) }));
+            // the signatures handed out are what observers of this flow know about
+            *assets.log.borrow_mut() = a2.log.borrow().clone();
             handle(
                 world, rep, case_idx, run, "builtin-locktime-satisfiers", mall, r, &spend, &assets, km, pm, lt, seq,
                 &mut on_produced, &mut on_failed,
